@@ -22,6 +22,7 @@ package main
 // directions intact; after a resumption the server reports the client certificates of the original session.
 
 import (
+	"sort"
 	"bytes"
 	"fmt"
 	"strconv"
@@ -34,6 +35,7 @@ import (
 
 func init() {
 	evals["resume"] = evalResume
+	evals["lru"] = evalLRU
 	gens["C16"] = genC16
 }
 
@@ -311,10 +313,144 @@ func evalResume(args []string) string {
 	return strings.Join(out, ",")
 }
 
+// lru <cap> <op>... : the library's LRU client session cache driven directly; op p:<key>:<val> is Put, g:<key> is
+// Get. Values are distinct *ClientSessionState pointers named by <val>. Output: one token per Get (the value's
+// name or -), then "|" and the final contents, most recently used first, found by probing — which must not be
+// observable: probing uses a second cache fed with the same operations.
+func evalLRU(args []string) string {
+	if len(args) < 1 {
+		return "bad-op"
+	}
+	capacity, err := strconv.Atoi(args[0])
+	if err != nil {
+		return "bad-op"
+	}
+	vals := map[int]*gmtls.ClientSessionState{}
+	names := map[*gmtls.ClientSessionState]int{}
+	val := func(v int) *gmtls.ClientSessionState {
+		if p, ok := vals[v]; ok {
+			return p
+		}
+		p := new(gmtls.ClientSessionState)
+		vals[v], names[p] = p, v
+		return p
+	}
+	type op struct {
+		put  bool
+		k, v int
+	}
+	var ops []op
+	for _, a := range args[1:] {
+		f := strings.Split(a, ":")
+		switch {
+		case len(f) == 3 && f[0] == "p":
+			k, e1 := strconv.Atoi(f[1])
+			v, e2 := strconv.Atoi(f[2])
+			if e1 != nil || e2 != nil {
+				return "bad-op"
+			}
+			ops = append(ops, op{true, k, v})
+		case len(f) == 2 && f[0] == "g":
+			k, e1 := strconv.Atoi(f[1])
+			if e1 != nil {
+				return "bad-op"
+			}
+			ops = append(ops, op{false, k, 0})
+		default:
+			return "bad-op"
+		}
+	}
+	run := func() (gmtls.ClientSessionCache, []string) {
+		c := gmtls.NewLRUClientSessionCache(capacity)
+		var out []string
+		for _, o := range ops {
+			if o.put {
+				c.Put(strconv.Itoa(o.k), val(o.v))
+			} else if cs, ok := c.Get(strconv.Itoa(o.k)); ok {
+				out = append(out, strconv.Itoa(names[cs]))
+			} else {
+				out = append(out, "-")
+			}
+		}
+		return c, out
+	}
+	_, out := run()
+	// final contents and order: key k is the i-th most recently used iff it survives exactly (cap-1-i) insertions of
+	// fresh keys; each probe on a cache of its own
+	eff := capacity
+	if eff < 1 {
+		eff = 64
+	}
+	keys := map[int]bool{}
+	for _, o := range ops {
+		keys[o.k] = true
+	}
+	type ent struct{ k, v, rank int }
+	var ents []ent
+	for k := range keys {
+		c, _ := run()
+		cs, ok := c.Get(strconv.Itoa(k)) // moves k to the front of this private copy
+		if !ok {
+			continue
+		}
+		// rank: the number of fresh insertions after which k is evicted, measured on another copy without the Get
+		rank := -1
+		for ins := 0; ins <= eff; ins++ {
+			c2, _ := run()
+			for j := 0; j < ins; j++ {
+				c2.Put("fresh"+strconv.Itoa(j), val(1000000+j))
+			}
+			// look without touching the order: a Get would reorder, so use yet another copy per probe (c2 is private)
+			if _, still := c2.Get(strconv.Itoa(k)); !still {
+				rank = ins
+				break
+			}
+		}
+		ents = append(ents, ent{k, names[cs], rank})
+	}
+	// most recently used = evicted last = largest rank (never evicted within eff insertions cannot happen: eff
+	// fresh keys fill the cache)
+	sort.Slice(ents, func(i, j int) bool { return ents[i].rank > ents[j].rank })
+	for i := 1; i < len(ents); i++ {
+		if ents[i].rank == ents[i-1].rank {
+			return "ORACLE-FAIL:lru-order-ambiguous"
+		}
+	}
+	var fin []string
+	for _, e := range ents {
+		fin = append(fin, fmt.Sprintf("%d=%d", e.k, e.v))
+	}
+	return strings.Join(out, " ") + " | " + strings.Join(fin, " ")
+}
+
 func genC16(r *rng, tier string, emit func(string)) {
 	n := 60
 	if tier == "thorough" {
 		n = 600
+	}
+	// the LRU cache on its own: capacities 1..8 (and 0, -1: the default of 64), long operation sequences
+	nl := 150
+	if tier == "thorough" {
+		nl = 3000
+	}
+	for i := 0; i < nl; i++ {
+		capacity := 1 + r.intn(8)
+		if i%25 == 0 {
+			capacity = r.pick([]int{0, -1})
+		}
+		nk := capacity + 1 + r.intn(4)
+		if capacity < 1 {
+			nk = 5
+		}
+		var ops []string
+		for j := 2 + r.intn(40); j > 0; j-- {
+			if r.chance(3, 5) {
+				ops = append(ops, fmt.Sprintf("p:%d:%d", r.intn(nk), r.intn(50)))
+			} else {
+				ops = append(ops, fmt.Sprintf("g:%d", r.intn(nk)))
+			}
+		}
+		emit(fmt.Sprintf("lru %d %s", capacity, strings.Join(ops, " ")))
 	}
 	gmSuites := []string{"e013", "e053", "e013+e053", "e053+e013", "-"}
 	tlsSuites := []string{"9c", "c02f", "9c+c02f", "c02f+9c", "2f", "-"}
